@@ -173,8 +173,35 @@ def _rand_bytes(rng, n):
     return bytes(rng.randrange(256) for _ in range(n))
 
 
+# valid UTF-8 texts a permissive or "helpful" text codec treats specially (byte-order mark, decomposed and compatibility characters that
+# Unicode normalisation rewrites, zero-width, 4-byte, non-characters, controls, blanks)
+AWKWARD_TEXTS = [t.encode() for t in ("\ufeffKids", "K\ufeffid", "u\u0308ber", "e\u0301t\u00e9", "\u212bngstr", "\u2126", "\ufb01n", "\u200bZone", "\U0001F3E0",
+                                      "\ud7ff\ue000", "\ufffd\ufffe", " Lead", "Trail ", "a\tb", "\x7f", "\u00a0x")]
+
+
+def text_payload(mod, rng):
+    """a well-formed names / ability / error-text / version payload carrying one of the awkward texts, or None for other modules"""
+    t = rng.choice(AWKWARD_TEXTS)
+    if mod.key == "FF12" and len(t) <= 8:
+        return bytes([rng.randrange(16)]) + t.ljust(8, b"\0")
+    if mod.key == "FF11" and len(t) <= 16:
+        tail = bytes([0, 4, 0x17, 0x1D, 0x11, 0x1F, 0x07, 0x00]) if mod.gen == 4 else bytes([0, 4, 0x17, 0x1D, 0x10, 0x1F, 0x12, 0x1F])
+        return bytes([rng.randrange(4), 24]) + t.ljust(16, b"\0") + tail
+    if mod.key == "FF13":
+        return bytes([rng.randrange(16), len(t)]) + t
+    if mod.key == "FF10":
+        return bytes([rng.randrange(4), len(t)]) + t
+    if mod.key == "FF30":
+        return bytes([rng.randrange(2), len(t)]) + t
+    return None
+
+
 def gen_payload(mod, rng):
     """mostly well-shaped payloads (whole records), sometimes odd lengths; returns (payload, hp)"""
+    if mod.key in ("FF12", "FF11", "FF13", "FF10", "FF30") and rng.random() < 0.2:
+        p = text_payload(mod, rng)
+        if p is not None:
+            return p, [len(p)]
     if mod.kind == "cs":
         rec = mod.rec
         count = rng.choice([0, 1, 1, 2, 3, 4, 8, 16])
